@@ -85,3 +85,80 @@ def kf_c13_partial_batch(component, script, impl, problems):
     ex = applier.explain(script, impl)
     return bool(not ex['shared'] and not ex['unexplained'] and ex['mech'] and
                 ex['mech'] <= {'partial-gapin', 'partial-applyerr', 'partial-deser'})
+
+
+# ---- C12 (component compaction): see lib/oracledefs/compaction.py `classify` for the exact conditions -------------------
+
+def kf_c12_tombstone(component, script, impl, problems):
+    """KF-C12-TOMBSTONE: a key whose latest write is a delete shows an OLDER value of itself again, and that delete was
+    issued inside a transaction or before a restart (so the in-memory tombstone tracker does not know it) and a
+    compaction ran after it; at directory level: a marker lay on top before that compaction and an older value after."""
+    from oracledefs import compaction
+    return component == 'compaction' and compaction.matches_finding(script, impl, problems, 'TOMBSTONE')
+
+
+def kf_c12_reflush(component, script, impl, problems):
+    """KF-C12-REFLUSH: a read returns an OLDER version of the key although a newer write exists, both written before a
+    restart R1, and after R1 memtables were flushed (recovered history written again as new level-0 files), then log
+    files were retired, then the database was reopened."""
+    from oracledefs import compaction
+    return component == 'compaction' and compaction.matches_finding(script, impl, problems, 'REFLUSH')
+
+
+def kf_c12_range(component, script, impl, problems):
+    """KF-C12-RANGE: a CompactRange over a partial key range changed the merged view of the directory for a key that is
+    held both by a selected file and by a file left untouched (or a later read of that key returns an older version)."""
+    from oracledefs import compaction
+    return component == 'compaction' and compaction.matches_finding(script, impl, problems, 'RANGE')
+
+
+# ---- C19 (component service / replica) -----------------------------------------------------------------------------
+
+def _svc_case_marked(script, mark):
+    return bool(script) and script[0].startswith('# case') and ('kf=' + mark) in script[0]
+
+
+def kf_get_error_as_notfound(component, script, impl, problems):
+    """KevoServiceServer.Get / TxGet report EVERY engine error as found=false: after the engine was closed the embedded
+    call fails with 'engine is closed' / 'storage is closed' while the service answers 'not found'.
+    Strict: marked case, a `close` line, and every problem is `svc!=emb` on an `rpc Get` / `rpc TxGet` line with
+    svc=nf and emb=err:closed|err:storageclosed."""
+    if component not in ('service', 'replica') or not _svc_case_marked(script, 'get-error-as-notfound'):
+        return False
+    if 'close' not in [l.strip() for l in script] or not problems:
+        return False
+    for p in problems:
+        if '] svc!=emb: rpc Get ' in p or '] svc!=emb: rpc TxGet ' in p:
+            if 'svc=nf emb=err:closed' in p or 'svc=nf emb=err:storageclosed' in p:
+                continue
+        return False
+    return True
+
+
+_MARKER_HEX = '5f5f636f6d706163745f6d61726b65725f5f'
+
+
+def kf_compact_marker(component, script, impl, problems):
+    """KevoServiceServer.Compact(force=true) commits the key '__compact_marker__' = 'force' through a read-write
+    transaction: a key the client never wrote appears in reads and scans (and on a replica the request fails with the
+    read-only-transaction error although compaction is not a client write).
+    Strict: marked case containing `rpc Compact 1`; every problem is on the `rpc Compact 1` line itself, or mentions the
+    marker key, or is a dump / GetStats that differs by exactly that one pair (count svc = count emb + 1, size + 23)."""
+    import re
+    if component not in ('service', 'replica') or not _svc_case_marked(script, 'compact-marker'):
+        return False
+    if 'rpc Compact 1' not in [l.strip() for l in script] or not problems:
+        return False
+    for p in problems:
+        if ': rpc Compact 1 |' in p:
+            continue
+        if _MARKER_HEX in p:
+            continue
+        m = re.search(r'dump svc=(\d+)\.\d+\.\d+ emb=(\d+)\.\d+\.\d+', p)
+        if '] dump:' in p and m and int(m.group(1)) == int(m.group(2)) + 1:
+            continue
+        m = re.search(r'rpc GetStats \| svc=stats:(\d+):(\d+) emb=stats:(\d+):(\d+)', p)
+        if m and int(m.group(1)) == int(m.group(3)) + 1 and int(m.group(2)) == int(m.group(4)) + 23:   # the marker pair: 18 + 5 bytes
+            continue
+        return False
+    return True
